@@ -313,9 +313,9 @@ Section Transition.
     NoDup (s_cfg s0) ->
     exec_external eng pr m t tgt ev s0 = (s1, None) ->
     let d := find_domain m (t_src t) tgt in
-    let xs := rev (sort_by (lt_depth_id m) (exit_set_h m (s_cfg s0) (s_hist s0) d tgt)) in
+    let xs := rev (sort_by (lt_depth_id m) (ext_exit_set m (s_cfg s0) (s_hist s0) d tgt)) in
     let hist := is_history m tgt in
-    let path := if hist then [] else path_to m tgt d in
+    let path := if hist then [] else ext_path m tgt d in
     let cp := if hist then combined_path m d (resolve_history m (s_hist s0) tgt) else [] in
     exists seg, s_log s1 = seg ++ s_log s0
       /\ leaves_of seg = xs
@@ -325,15 +325,17 @@ Section Transition.
     match type of H with (match ?b s0 with _ => _ end) = _ => destruct (b s0) as [sb [e|]] eqn:Eb end.
     - exfalso. destruct (for_each _ _ _) as [s2 [e2|]]; discriminate.
     - set (d := find_domain m (t_src t) tgt) in *.
-      set (X := exit_set_h m (s_cfg s0) (s_hist s0) d tgt) in *.
+      set (X := ext_exit_set m (s_cfg s0) (s_hist s0) d tgt) in *.
       set (xs := rev (sort_by (lt_depth_id m) X)) in *.
       assert (HX : NoDup xs).
       { unfold xs. apply NoDup_rev. apply (Permutation_NoDup (sort_by_perm (lt_depth_id m) X)).
-        unfold X, exit_set_h, exit_set. destruct (is_history m tgt); destruct (is_parallel m d); try destruct (branch_of m d tgt);
+        unfold X, ext_exit_set, exit_set_h, exit_set. destruct (Nat.eqb tgt 0); [exact Hnd|].
+        destruct (is_history m tgt); destruct (is_parallel m d); try destruct (branch_of m d tgt);
           repeat apply filter_nodup; exact Hnd. }
       assert (Hact : filter (fun x => mem x (s_cfg s0)) xs = xs).
       { apply filter_all_true. intros x Hx. apply mem_In. unfold xs in Hx. rewrite <- in_rev in Hx.
-        apply (proj1 (sort_by_In (lt_depth_id m) x X)) in Hx. now apply (exit_set_h_sub m (s_cfg s0) (s_hist s0) d tgt x). }
+        apply (proj1 (sort_by_In (lt_depth_id m) x X)) in Hx. unfold X, ext_exit_set in Hx. destruct (Nat.eqb tgt 0); [exact Hx|].
+        now apply (exit_set_h_sub m (s_cfg s0) (s_hist s0) d tgt x). }
       (* hooks only add OTrans / ONotify *)
       assert (Hk : exists hk, s_log s1 = hk ++ s_log sb /\ leaves_nf hk = [] /\ enters_nf hk = []).
       { destruct eng; unfold bind, hook_trans, hook_notify, lift, logo in H; inversion H; subst; simpl;
@@ -395,10 +397,11 @@ Section Accounting.
     assert (HdC : In d C) by now apply (domain_active m Hwf).
     destruct (external_log m eng pr t tgt ev s0 s1 (L_nodup m _ HL) Hex) as [seg [Elog [Elv Een]]].
     cbv zeta in Elv, Een. fold d in Elv, Een. rewrite Hh in Een. rewrite entered_nil, app_nil_r in Een.
-    rewrite (exit_set_h_plain m (s_cfg s0) (s_hist s0) d tgt Hh) in Elv. fold C in Elv.
+    rewrite (ext_exit_set_nonroot m _ _ d tgt Hne), (exit_set_h_plain m (s_cfg s0) (s_hist s0) d tgt Hh) in Elv. fold C in Elv.
+    rewrite (ext_path_nonroot m tgt d Hne) in Een.
     pose proof (external_effect m eng pr t tgt ev s0 s1 Hex) as Heff. cbv zeta in Heff. fold d in Heff. rewrite Hh in Heff.
     rewrite entered_nil in Heff. unfold add_all at 1 in Heff. cbn [fold_left] in Heff.
-    rewrite (exit_set_h_plain m (s_cfg s0) (s_hist s0) d tgt Hh) in Heff. fold C in Heff.
+    rewrite (ext_exit_set_nonroot m _ _ d tgt Hne), (ext_path_nonroot m tgt d Hne), (exit_set_h_plain m (s_cfg s0) (s_hist s0) d tgt Hh) in Heff. fold C in Heff.
     destruct (formula_parts m Hwf C d tgt HL Ht Hd HdC) as [x1 [P' [Bs [EP [Hchain [Hlast [Hrm [HBs [Hx1B _]]]]]]]]].
     set (xs := rev (sort_by (lt_depth_id m) (exit_set m C d tgt))) in *.
     set (N := entered (S (size m)) m (path_to m tgt d)) in *.
